@@ -3,7 +3,8 @@
    ingested, last part closed) is written as one JSON line: the dataset, the
    segmentation (cuts: events per part and whether the part ends with a block
    flush or a segment rotation) and the expected tables: global aggregates,
-   group-by rows, time buckets (origin 0) for every span. *)
+   group-by rows, time buckets (origin 0) for every span, and the buckets of
+   `bin span= aligntime=` for every (span, align time) of AlignSpans x AlignTimes. *)
 EXTENDS Aggregations, AggregationsConsts, Json, IOUtils
 
 BagJ(b) == {[v |-> w, n |-> b[w]] : w \in DOMAIN b}
@@ -16,12 +17,15 @@ BucketsJ(span) == LET T == BucketTable(Seen, span, 0)
 (* second admissible reading: a numeric string is text (not a number) for sum/min/max/avg *)
 StripEv(e) == [e EXCEPT !.x = IF @.k = "numstr" THEN [k |-> "text", n |-> 0, c |-> @.c] ELSE @]
 Strip(E) == {StripEv(e) : e \in E}
+AlignedJ(span, a) == LET T == BucketTable(Seen, span, a)
+                     IN {[b |-> b, count |-> T[b].cnt, sum |-> T[b].sum] : b \in DOMAIN T}
 Line == [ds |-> ds, cuts |-> cuts,
          global |-> FinalJ(MergedG),
          global_ns |-> FinalJ(Direct(Strip(Seen))),
          rows |-> {[key |-> MergedT[j].key, f |-> FinalJ(MergedT[j].p),
                     f_ns |-> FinalJ(Direct(Strip({e \in Seen : e.g = MergedT[j].key})))] : j \in DOMAIN MergedT},
-         buckets |-> {[span |-> s, rows |-> BucketsJ(s)] : s \in Spans}]
+         buckets |-> {[span |-> s, rows |-> BucketsJ(s)] : s \in Spans},
+         aligned |-> IF Spans = {} THEN {} ELSE {[span |-> s, align |-> a, rows |-> AlignedJ(s, a)] : s \in AlignSpans, a \in AlignTimes}]
 Emit == done => Serialize(ToJson(Line) \o "\n", "behaviours.ndjson",
                   [format |-> "TXT", charset |-> "UTF-8", openOptions |-> <<"WRITE", "CREATE", "APPEND">>]).exitValue = 0
 =============================================================================
